@@ -762,7 +762,7 @@ fn gen_inspecs(built: &Built, rng: &mut Rng, heavy_tags: bool) -> Vec<InSpec> {
                 }
             }
             let tags = if built.name == "s2pdu" {
-                gen_burst_tags(rng, len)
+                gen_burst_tags_for(rng, len, Some((built.params[1] as usize, built.params[2] as usize)))
             } else if pkts.is_empty() {
                 gen_tags(rng, len, heavy_tags)
             } else {
@@ -1170,6 +1170,58 @@ pub fn uneven_output_probes(rng: &mut Rng) -> Vec<String> {
     out
 }
 
+/// C19 with a reader thread that consumes from the output exactly between the generated `work()`'s acquisition
+/// of its write window and the rest of the call (hook `WRITE_BUF_RETURN`): the call must stay within the window
+/// it was given — what it processes is min(input, window), and the samples delivered are the function of the
+/// input, in order.
+pub fn window_race_probes(rng: &mut Rng) -> Vec<String> {
+    let mut out = vec![];
+    for round in 0..4 {
+        let (mut fi, r) = feeder::<u32>(rng.below(5000));
+        let (mut b, o) = Ar11::new(r);
+        let cap = 1024usize;
+        let room = rng.range(1, 6);
+        let first = cap - room;
+        let vals: Vec<u64> = (0..first).map(|i| i as u64).collect();
+        fi.push(&vals, &[]);
+        let r1 = quiet(|| b.work().map(|_| ()).map_err(|e| e.to_string()));
+        let more = rng.range(50, 300);
+        let vals2: Vec<u64> = (0..more).map(|i| (first + i) as u64).collect();
+        fi.push(&vals2, &[]);
+        let take = rng.range(20, 200);
+        let o = std::sync::Arc::new(o);
+        let o2 = o.clone();
+        let (res, reached) = crate::waits::race(
+            rustradio::verif::pt::WRITE_BUF_RETURN,
+            move || {
+                let r = quiet(|| b.work().map(|_| ()).map_err(|e| e.to_string()));
+                matches!(r, Ok(Ok(())))
+            },
+            move || {
+                if let Ok((rb, _)) = o2.read_buf() {
+                    let n = take.min(rb.len());
+                    rb.consume(n);
+                }
+            },
+        );
+        // what the reader is shown now: the samples after the `take` consumed ones, in order, nothing stale
+        let got: Vec<u64> = quiet(|| o.read_buf().map(|(rb, _)| rb.slice().iter().map(|v| *v as u64).collect::<Vec<u64>>()).unwrap_or_default()).unwrap_or_default();
+        let want_len = first + room.min(more) - take.min(first);
+        let in_order = got.iter().enumerate().all(|(i, v)| *v == (take.min(first) + i) as u64);
+        let v = if !matches!(r1, Ok(Ok(()))) {
+            "FAIL first call failed".to_string()
+        } else if !res {
+            "FAIL the call that raced with the reader failed or panicked".to_string()
+        } else if got.len() != want_len || !in_order {
+            format!("FAIL reader sees {} samples (specification: {want_len}), in order: {in_order}", got.len())
+        } else {
+            "pass".to_string()
+        };
+        out.push(format!("!winrace arity 1 1 round={round} room={room} more={more} consumed-meanwhile={take} gate-reached={reached}\t{v}\t{}", if v == "pass" { "" } else { "window-race" }));
+    }
+    out
+}
+
 /// C19 on default-size (4 MB) streams: one call of a generated sync `work()` processes exactly
 /// min(shortest input, smallest output space) steps, however many that is.
 pub fn big_step_probes(rng: &mut Rng) -> Vec<String> {
@@ -1408,7 +1460,11 @@ pub fn case(name: &str, rng: &mut Rng, steps: usize, heavy_tags: bool) -> String
                 3 => rng.range(0, 3 * in_cap),
                 _ => rng.range(0, 700),
             };
-            let tags = if built.name == "s2pdu" { gen_burst_tags(rng, len) } else { gen_tags(rng, len, heavy_tags) };
+            let tags = if built.name == "s2pdu" {
+                gen_burst_tags_for(rng, len, Some((built.params[1] as usize, built.params[2] as usize)))
+            } else {
+                gen_tags(rng, len, heavy_tags)
+            };
             if built.name == "audec" {
                 let data = au_input(rng, in_cap);
                 let tags = gen_tags(rng, data.len(), heavy_tags);
@@ -1478,6 +1534,8 @@ pub fn run(args: &[String]) -> Vec<String> {
         out.extend(big_step_probes(&mut r));
         let mut r = rng.fork();
         out.extend(uneven_output_probes(&mut r));
+        let mut r = rng.fork();
+        out.extend(window_race_probes(&mut r));
     }
     for _ in 0..arg_usize(args, "--zc-ideal", 0) {
         let mut r = rng.fork();
